@@ -12,7 +12,7 @@ CLAUSES = {
     "runs-equal": "the three spellings of one runnable set-up (YAML with anchors/aliases for repeated encodings, TOML, legacy v1) produce the same output file: dimensions, variables, storage types, attributes and every value",
     "optional-sections": "omitted optional sections (state, ibm, warm_start, grid) behave as empty ones",
 }
-BOUNDS = {"quick": "(runs-equal: 3-step runs on a 6x6 ROMS grid, 2 release rows with symbolic depth/weight, discrete or continuous, plain or wildcard forcing name, YAML with aliases) all 128 combinations of 7 presence flags (grid section, subgrid, reference time, continuous release, ibm section, particle variables, wildcard forcing name); every leaf a unique token; one scenario with a warm start file named in each spelling (version 1: files.warm_start_file)",
+BOUNDS = {"quick": "(runs-equal: 3-step runs on a 6x6 ROMS grid, 2 release rows with symbolic depth/weight, discrete or continuous, plain or wildcard forcing name, YAML with aliases) all 128 combinations of 7 presence flags (grid section, subgrid, reference time, continuous release, ibm section, particle variables, wildcard forcing name); every leaf a unique token; one scenario with a warm start file named in each spelling (version 1: files.warm_start_file), one more with numrec: 0 and skip_initial: false written out (warm and cold)",
           "thorough": "same plus extra_forcing and diffusion flags (512 combinations)"}
 ASSUMES = ["equality of the three runs follows from equal constructor arguments and determinism (C14) for the 128 flag combinations — argued; one runnable set-up (scenario runs-equal) is really run in the three spellings and the files compared",
            "the v1 vocabulary the docstring of configure_v1 supports ('ordinary use cases'): warm_start and ladim1-only keys are not exercised"]
@@ -29,6 +29,9 @@ def scenarios(tier):
         out.append(dict(name=f"variant-{k}", fn="run", params=dict(extra=False, version=ver, suffix=suffix, wild=wild, extra_forcing=True, **legacy), cost=10))
     out.append(dict(name="runs-equal", fn="runs", params={}, cost=10))
     out.append(dict(name="warm-start-spellings", fn="run", params=dict(extra=False, warm=True), cost=10))
+    # a warm start with numrec: 0 and skip_initial: false written out in every spelling (the warm start's own default is to skip)
+    out.append(dict(name="warm-start-explicit-falsy", fn="run", params=dict(extra=False, warm=True, falsy=True), cost=10))
+    out.append(dict(name="cold-explicit-falsy", fn="run", params=dict(extra=False, falsy=True), cost=10))
     return out
 
 
@@ -202,6 +205,9 @@ def run(W, p):
     y2 += ["    ncargs: {data_model: NETCDF3_CLASSIC}"]
     if p.get("numrec"):
         y2 += [f"    numrec: {_tok(31)}", "    skip_initial: true"]
+    if p.get("falsy"):
+        # options written out with the value a warm start would not choose by itself (a key that is present must survive the translation)
+        y2 += ["    numrec: 0", "    skip_initial: false"]
 
     # ---------------------------------------------------------------- version 2, TOML
     def tq(s):
@@ -226,7 +232,7 @@ def run(W, p):
         t2 += ["continuous = true", f'release_frequency = [{freqv}, "h"]']
     if flags["has_ibm"]:
         t2 += ["[ibm]", 'module = "my_ibm"', f"lifetime = {ibmopt}"]
-    t2 += ["[output]", 'filename = "out.nc"', f'output_period = [{outv}, "h"]', 'ncargs = {data_model = "NETCDF3_CLASSIC"}'] + ([f"numrec = {_tok(31)}", "skip_initial = true"] if p.get("numrec") else []) + [
+    t2 += ["[output]", 'filename = "out.nc"', f'output_period = [{outv}, "h"]', 'ncargs = {data_model = "NETCDF3_CLASSIC"}'] + ([f"numrec = {_tok(31)}", "skip_initial = true"] if p.get("numrec") else []) + (["numrec = 0", "skip_initial = false"] if p.get("falsy") else []) + [
            "[output.instance_variables]",
            'pid = {encoding = {datatype = "i4"}, attributes = {long_name = "particle identifier"}}',
            'X = {encoding = {datatype = "f4"}, attributes = {long_name = "particle X-coordinate"}}',
@@ -253,7 +259,7 @@ def run(W, p):
         y1 += ["    particle_variables: [super, farm]", "    farm: int"]  # super has no converter: defaults to float
     if flags["has_ibm"]:
         y1 += ["ibm:", "    ibm_module: my_ibm", "    variables: [age]", f"    lifetime: {ibmopt}"]
-    y1 += ["output_variables:", f"    outper: [{outv}, h]"] + ([f"    numrec: {_tok(31)}", "    skip_initial: true"] if p.get("numrec") else []) + [ "    instance: [pid, X]", "    particle: [" + ("super" if flags["has_pvars"] else "") + "]",
+    y1 += ["output_variables:", f"    outper: [{outv}, h]"] + ([f"    numrec: {_tok(31)}", "    skip_initial: true"] if p.get("numrec") else []) + (["    numrec: 0", "    skip_initial: false"] if p.get("falsy") else []) + [ "    instance: [pid, X]", "    particle: [" + ("super" if flags["has_pvars"] else "") + "]",
            "    pid: {ncformat: i4, long_name: particle identifier}", "    X: {ncformat: f4, long_name: particle X-coordinate}"]
     if flags["has_pvars"]:
         y1 += ["    super: {ncformat: f4, long_name: number of individuals}"]
@@ -293,6 +299,9 @@ def run(W, p):
         W.prove(g.get("module") == "ladim.ROMS" and g.get("filename") == str(tmp / "ocean_001.nc"), "grid-default", dict(grid=g, flags=flags))
     else:
         W.prove(n_y2["grid"].get("filename") == gridfile, "grid-default", dict(grid=n_y2["grid"]))
+    if p.get("falsy"):
+        W.prove(all(c["output"].get("skip_initial") is False and c["output"].get("numrec") == 0 for c in (c_y2, c_t2, c_y1)), "v1-v2-equal",
+                dict(got=[(c["output"].get("skip_initial"), c["output"].get("numrec")) for c in (c_y2, c_t2, c_y1)], note="explicit numrec: 0 / skip_initial: false survive in every spelling"))
     if p.get("warm"):
         ws = n_y2.get("warm_start", {})
         W.prove(ws.get("filename") == wfile and str(n_y2["time"].get("start"))[:19].replace("T", " ") == "2000-01-04 03:00:00", "v1-v2-equal",
